@@ -325,12 +325,24 @@ static int cb_func(cfg_t *cfg, cfg_opt_t *opt, int argc, const char **argv)
 	/* "nest:<text>": the callback itself parses <text> into context 1 while the parse
 	 * that called it is still running (a second live context, used re-entrantly) */
 	if (argc > 0 && !strncmp(argv[0], "nest:", 5) && ctx[1] && ctx[1] != cfg) {
-		int rc;
+		int rc, k;
+		char *text = strdup(argv[0] + 5);
+		char **saved = calloc((size_t)argc, sizeof *saved);
 
+		for (k = 0; k < argc; k++)
+			saved[k] = strdup(argv[k]);
 		in_nest++;
-		rc = cfg_parse_buf(ctx[1], argv[0] + 5);
+		rc = cfg_parse_buf(ctx[1], text);
 		in_nest--;
 		fprintf(obs, "T nest %d\n", rc);
+		/* the arguments handed to THIS invocation are still the ones it was called with */
+		for (k = 0; k < argc; k++) {
+			if (!argv[k] || strcmp(argv[k], saved[k]) != 0)
+				fprintf(obs, "H argv-changed %d\n", k);
+			free(saved[k]);
+		}
+		free(saved);
+		free(text);
 	}
 	if (fail)
 		cfg_error(cfg, "callback failed");
@@ -1160,6 +1172,28 @@ static void run_line(char *line)
 		else
 			o = (cfg_opt_t *)(cfg_set_validate_func(CTX(1), p, cb_valid) == cb_valid ? (void *)1 : NULL);
 		fprintf(obs, "R %d\n", o ? 0 : -1);
+		free(p);
+	} else if (!strcmp(w[0], "VFS") && n == 5) {
+		/* the registration function called on a section instance (not on the context) */
+		char *sp = unhex(w[2], NULL), *p = unhex(w[3], NULL);
+		cfg_t *sec;
+		int found = 0;
+
+		NEEDCTX(1);
+		quiet = 1;
+		sec = cfg_getsec(CTX(1), sp);
+		if (sec) {
+			if (w[4][0] == 'w') {
+				cfg_set_validate_func2(sec, p, cb_valid2);
+				found = cfg_set_validate_func2(sec, p, cb_valid2) == cb_valid2;
+			} else {
+				cfg_set_validate_func(sec, p, cb_valid);
+				found = cfg_set_validate_func(sec, p, cb_valid) == cb_valid;
+			}
+		}
+		quiet = 0;
+		fprintf(obs, "R %d\n", found ? 0 : -1);
+		free(sp);
 		free(p);
 	} else if (!strcmp(w[0], "PFN") && n == 4) {
 		/* install (1) or remove (0) a print callback at run time */
